@@ -293,6 +293,8 @@ def gate(R):
     C10.limit(R, RID='C19.gate', recv='proxy.ProxyParser')
     from . import C09
     C09.proxyread(R, RID='C19.gate')
+    from . import C02
+    C02.parser_lifetime(R, RID='C19.gate')
     statusline(R)
     # EOF: Parser.feed raises on empty data
     q3 = 'parser.Parser.feed'
